@@ -368,7 +368,31 @@ func cmdCheck(args []string) {
 	var spot []interface{}
 	mutTotal, mutCaught := 0, 0
 	var mutMissed []string
-	if *tier == "thorough" && exit == 0 {
+	// bounded stand-in (labelled bounded, never counted as proved): a function of /repo
+	// whose contract is only assumed (mode trusted) inside this property's closure is
+	// exercised by the layer's replay driver on every run, quick tier included.
+	var assumedInRepo []string
+	for _, k := range keys {
+		fn := p.Funcs[k]
+		if fn == nil {
+			continue
+		}
+		for _, b := range fn.Blocks {
+			for _, in := range b.Instrs {
+				if ci, ok := in.(ssa.CallInstruction); ok {
+					if callee, ok := ci.Common().Value.(*ssa.Function); ok {
+						if c := p.Contracts[callee.String()]; c != nil && c.Mode == "trusted" && strings.HasPrefix(callee.String(), "(*github.com/TheCacophonyProject/thermal-recorder/motion.motionDetector)") {
+							assumedInRepo = append(assumedInRepo, shortFn(callee.String()))
+						}
+					}
+				}
+			}
+		}
+	}
+	sort.Strings(assumedInRepo)
+	assumedInRepo = uniq(assumedInRepo)
+	runDrivers := *tier == "thorough" || (len(assumedInRepo) > 0 && (*prop == "C15" || *prop == "C08"))
+	if runDrivers && exit == 0 {
 		for _, dn := range propertyDrivers[*prop] {
 			for _, d := range replayDrivers {
 				if d.test != dn {
@@ -392,7 +416,7 @@ func cmdCheck(args []string) {
 				break
 			}
 		}
-		if os.Getenv("VERIF_OUT_DIR") == "" { // not inside a selftest run
+		if *tier == "thorough" && os.Getenv("VERIF_OUT_DIR") == "" { // not inside a selftest run
 			out, _ := exec.Command(filepath.Join(*verif, "selftest", "run.sh"), *prop+"-").CombinedOutput()
 			for _, line := range strings.Split(string(out), "\n") {
 				if strings.HasPrefix(line, "caught ") {
@@ -439,6 +463,7 @@ func cmdCheck(args []string) {
 			"hook_files":           p.hookFileReport(),
 			"known_findings":       knownLines,
 			"spot_checks_testing":  spot,
+			"bounded_standins":     map[string]interface{}{"functions_of_repo_with_assumed_contract": assumedInRepo, "stand_in": "replay driver(s) of this property run on every tier (seeded random search, ~200k scenarios or 20 s; bounded, not a proof)"},
 			"mutants_total":        mutTotal,
 			"mutants_reported":     mutCaught,
 			"mutants_missed":       mutMissed,
